@@ -186,6 +186,23 @@ CLAIMED['C03'] = dict(
     ref='4 C03',
     note='html.escape character sets are read from the interpreter\'s '
          'html/__init__.py')
+CLAIMED['C19'] = dict(
+    technique='call-site query over resolved callees with an encoding '
+              'parameter (incl. table dispatch); def-use tracking of '
+              'rendered pieces into +, % and str.join; decoder argument '
+              'check',
+    text='Partial: the parser passes the template encoding to every block '
+         'command; every call in render code whose resolved callee takes '
+         'an encoding (render_blocks, join_unicode, html_quote, the tree '
+         'renderers) binds it to the stored/received encoding; values '
+         'produced by render_blocks are combined only by join_unicode, '
+         'never by +, % or str.join (across function boundaries); '
+         'html_quote and join_unicode decode with the encoding they are '
+         'given. Not decided: ustr() on all value types; codec tables.',
+    ref='4 C19, App. B',
+    note='4 known findings: non-block commands (Var) are constructed '
+         'without the encoding and Var.render reaches html_quote without '
+         'it')
 PENDING = {}
 NA = {
     'C16': 'numerical identities over run-time data (sums, means, n vs n-1, '
